@@ -1208,3 +1208,16 @@ Proof.
 Qed.
 
 End Proofs.
+
+(** [wf_traceb] decides [wf_trace]. *)
+Lemma nodupb_spec l : nodupb l = true -> NoDup l.
+Proof.
+  induction l as [|x r IH]; cbn [nodupb]; [constructor|].
+  intros H. apply andb_prop in H. destruct H as [H1 H2]. constructor; [|now apply IH].
+  intros Hin. apply negb_true_iff in H1.
+  assert (existsb (N.eqb x) r = true); [|congruence].
+  apply existsb_exists. exists x. split; [assumption|apply N.eqb_refl].
+Qed.
+
+Lemma wf_traceb_spec tr : wf_traceb tr = true -> wf_trace tr.
+Proof. apply nodupb_spec. Qed.
